@@ -55,7 +55,8 @@ func (cfg2Scenario) Build(cfg string) ([]func(), func(*vsched.Sched) []string) {
 		// what is ENFORCED, observed through behaviour
 		wantOpen := got.General.ForceOpen
 		if c.IsOpen() != wantOpen {
-			problems = append(problems, fmt.Sprintf("C08: after two overlapping reconfigurations Config() reports ForceOpen=%t ForcedClosed=%t but IsOpen()=%t", got.General.ForceOpen, got.General.ForcedClosed, c.IsOpen()))
+			problems = append(problems, fmt.Sprintf("C08: after two overlapping reconfigurations Config() reports ForceOpen=%t ForcedClosed=%t but IsOpen()=%t", got.General.ForceOpen, got.General.ForcedClosed, c.IsOpen()),
+				"C09: the override flags in force are not the ones Config() reports (IsOpen disagrees with a quiescent, 'not overridden' circuit's state)")
 		}
 		// probe call on a copy of the flags that admits it: clear the overrides through a further, sequential, call
 		probeCfg := got
@@ -68,6 +69,9 @@ func (cfg2Scenario) Build(cfg string) ([]func(), func(*vsched.Sched) []string) {
 			_, hasDeadline = ctx.Deadline()
 			return errBoom
 		}, func(context.Context, error) error { fbRan = true; return nil })
+		if got.General.ForceOpen && ran {
+			problems = append(problems, "C01: Config() reports ForceOpen, yet a call that started after both reconfigurations had returned invoked its run function", "C09: the override flags in force are not the ones Config() reports")
+		}
 		if !got.General.ForceOpen {
 			wantRun := got.Execution.MaxConcurrentRequests != 0
 			if ran != wantRun {
